@@ -4,7 +4,7 @@
    model Model/IntervalRange.v over the translated add_duration and Model/TzConvert.v.  seq_at iv u n k is "start.add(unit = k*n)" computed from the start. *)
 From Coq Require Import ZArith List Bool.
 From PV Require Import Lib.PyBase Spec.Cal Spec.Zone Spec.NativeDT Proofs.ZoneFacts Model.TzConvert Model.IntervalRange Gen.IntervalRange.
-From PV Require Import Proofs.C19Facts Proofs.C19Mono Proofs.C19Zone Proofs.C19Witness.
+From PV Require Import Proofs.C19Facts Proofs.C19Mono Proofs.C19Zone Proofs.C19Witness Proofs.C19Mixed.
 Import ListNotations.
 Open Scope Z_scope.
 
@@ -172,3 +172,46 @@ Theorem range_raises_at_limit_refuted :
   exists iv fuel, plain (iv_start iv) /\ py_range fuel iv U_days 1 = ([d 3652057; d 3652058], GRaise E_OverflowError).
 Proof. exact range_raises_at_limit_refuted_l. Qed.
 Print Assumptions range_raises_at_limit_refuted.
+
+(* 18. the two ends carry DIFFERENT tzinfo objects (start in a zone, end in UTC / a fixed offset / another zone), hours .. microseconds, every
+   well-formed zone: Python orders such values by their instants, so the run yields EXACTLY the indices k whose instant  start +- k*n units  is not
+   beyond the end's instant — also when the end lies inside a repeated hour of the start's zone (contrast range_contained_instants_refuted, where
+   both ends share the tzinfo).  A change that re-expresses the end in the start's zone before the loop breaks this statement. *)
+Theorem range_mixed_zones_stop_by_instant : forall iv u n,
+  wf_zone (dv_zone (iv_start iv)) = true -> dv_kind (iv_start iv) = K_AWARE -> dv_kind (iv_end iv) = K_AWARE ->
+  dv_tzid (iv_start iv) <> dv_tzid (iv_end iv) -> 4 <= u <= 7 -> forall fuel l,
+  py_range fuel iv u n = (l, GDone) ->
+  (forall j x, nth_error l j = Some x ->
+     dv_inst x = inst_at iv u n j /\ inst_within iv (inst_at iv u n j) = true /\ dv_tzid x = dv_tzid (iv_start iv)) /\
+  inst_within iv (inst_at iv u n (length l)) = false.
+Proof. exact range_mixed_stop_l. Qed.
+Print Assumptions range_mixed_zones_stop_by_instant.
+
+Theorem range_mixed_zones_exact : forall iv u n,
+  wf_zone (dv_zone (iv_start iv)) = true -> dv_kind (iv_start iv) = K_AWARE -> dv_kind (iv_end iv) = K_AWARE ->
+  dv_tzid (iv_start iv) <> dv_tzid (iv_end iv) -> 4 <= u <= 7 -> forall fuel l, 1 <= n ->
+  py_range fuel iv u n = (l, GDone) ->
+  forall k, (k < length l)%nat <-> inst_within iv (inst_at iv u n k) = true.
+Proof. exact range_mixed_exact_l. Qed.
+Print Assumptions range_mixed_zones_exact.
+
+(* the end is yielded (as the last value) whenever its instant is on the grid start +- k*n units *)
+Theorem range_mixed_zones_end_reached : forall iv u n,
+  wf_zone (dv_zone (iv_start iv)) = true -> dv_kind (iv_start iv) = K_AWARE -> dv_kind (iv_end iv) = K_AWARE ->
+  dv_tzid (iv_start iv) <> dv_tzid (iv_end iv) -> 4 <= u <= 7 -> forall fuel l k, 1 <= n ->
+  py_range fuel iv u n = (l, GDone) -> inst_at iv u n k = dv_inst (iv_end iv) ->
+  exists x, nth_error l k = Some x /\ dv_inst x = dv_inst (iv_end iv) /\ length l = S k.
+Proof. exact range_mixed_end_l. Qed.
+Print Assumptions range_mixed_zones_end_reached.
+
+(* 19. direction and membership of mixed-zone values are decided by the instants *)
+Theorem interval_direction_mixed_zones : forall s e ab, dv_kind e = K_AWARE -> dv_tzid s <> dv_tzid e ->
+  iv_invert (mk_interval s e ab) = (dv_inst e <? dv_inst s).
+Proof. exact interval_direction_mixed_l. Qed.
+Print Assumptions interval_direction_mixed_zones.
+
+Theorem contains_mixed_zones : forall iv x, dv_kind (iv_start iv) = K_AWARE -> dv_kind x = K_AWARE ->
+  dv_tzid (iv_start iv) <> dv_tzid x -> dv_tzid x <> dv_tzid (iv_end iv) ->
+  py_contains iv x = (dv_inst (iv_start iv) <=? dv_inst x) && (dv_inst x <=? dv_inst (iv_end iv)).
+Proof. exact contains_mixed_l. Qed.
+Print Assumptions contains_mixed_zones.
